@@ -47,6 +47,7 @@ def draw_cfg(st):
            "n_ops": 2 + st.choose(7, "n_ops")}
     if mode == "memory":
         cfg["use_serialize"] = st.choose(3, "use_serialize") == 2
+        cfg["second_logger"] = st.choose(3, "second_logger") == 2 and not cfg["use_serialize"]
         # op mixes: balanced, serialize-heavy, reset-heavy, reset-vs-write only, flush-vs-traceback-write
         cfg["w"] = [[6, 3, 2, 2, 0, 1, 1], [6, 4, 2, 1, 2, 1, 0], [8, 2, 1, 0, 0, 0, 3],
                     [4, 2, 2, 0, 0, 0, 5], [1, 1, 6, 0, 0, 5, 1]][st.choose(5, "mix")]
@@ -80,7 +81,14 @@ def gen_ops(st, cfg):
             k = st.weighted(w, "op")
             if k in (0, 1, 2):
                 nid += 1
-                ops.append([["write_untyped", "write_typed", "write_tb"][k], nid])
+                if k == 1 and cfg.get("second_logger") and st.choose(3, "nested") == 2:
+                    # a typed write to logger A whose field serializer logs to logger B
+                    nid += 1
+                    ops.append(["write_nested", nid - 1, nid])
+                elif k == 0 and cfg.get("second_logger") and st.choose(3, "to-b") == 2:
+                    ops.append(["write_b", nid])
+                else:
+                    ops.append([["write_untyped", "write_typed", "write_tb"][k], nid])
             elif k == 3:
                 ops.append(["validate"])
                 validated = True
@@ -110,7 +118,9 @@ def run_memory(rc, cfg, actors_ops):
     rc.sched = s
     rc.clock = seams.begin_run(rc.seed)
     logger = e.MemoryLogger()
+    logger_b = e.MemoryLogger()
     ser_of = {}
+    ser_b = {}
     hist = []       # dict(op, nid, inv, ret, result)
     errors = []
 
@@ -134,6 +144,33 @@ def run_memory(rc, cfg, actors_ops):
                         h["nid"] = op[1]
                         d = mk_typed(op[1])
                         logger.write(d, ser_of[op[1]])
+                    elif k == "write_nested":
+                        h["nid"] = op[1]
+                        nb = op[2]
+
+                        mtb = e.MessageType("c16:b%d" % nb, [e.Field("nid", lambda x: x, "")], "")
+                        ser_b[nb] = mtb._serializer
+                        fired = []
+
+                        def via(v, nb=nb, mtb=mtb, fired=fired):
+                            # runs inside logger A's locked section (validation runs serializers, more than
+                            # once per message: only the first invocation logs to B)
+                            if not fired:
+                                fired.append(1)
+                                logger_b.write({"nid": nb, "message_type": "c16:b%d" % nb, "task_uuid": "u",
+                                                "task_level": [nb], "timestamp": 1.0}, mtb._serializer)
+                            return v
+                        mt = e.MessageType("c16:n%d" % op[1], [e.Field("v", via, ""), e.Field("nid", lambda x: x, "")], "")
+                        ser_of[op[1]] = mt._serializer
+                        logger.write({"nid": op[1], "message_type": "c16:n%d" % op[1], "v": 1, "task_uuid": "u",
+                                      "task_level": [op[1]], "timestamp": 1.0}, mt._serializer)
+                    elif k == "write_b":
+                        h["nid"] = op[1]
+                        h["logger"] = "b"
+                        mtb = e.MessageType("c16:b%d" % op[1], [e.Field("nid", lambda x: x, "")], "")
+                        ser_b[op[1]] = mtb._serializer
+                        logger_b.write({"nid": op[1], "message_type": "c16:b%d" % op[1], "task_uuid": "u",
+                                        "task_level": [op[1]], "timestamp": 1.0}, mtb._serializer)
                     elif k == "write_tb":
                         h["nid"] = op[1]
                         cls = TbA if op[1] % 2 else TbB
@@ -183,6 +220,14 @@ def run_memory(rc, cfg, actors_ops):
         name, k, ex = errors[0]
         raise Violation(("raised", {"op": k, "exc": type(ex).__name__}),
                         "%s in thread %s raised %s: %s" % (k, name, type(ex).__name__, str(ex)[:300]))
+    # the second logger: pairs intact, nothing lost (it is never reset)
+    if len(logger_b.messages) != len(logger_b.serializers):
+        raise Violation("length_mismatch", "second logger: len(messages)=%d, len(serializers)=%d" % (
+            len(logger_b.messages), len(logger_b.serializers)))
+    for m, sr in zip(logger_b.messages, logger_b.serializers):
+        if ser_b.get(m.get("nid")) is not sr:
+            raise Violation("pair_mismatch", "second logger: message nid=%s is paired with another message's "
+                            "serializer" % m.get("nid"))
     msgs, sers, tbs = logger.messages, logger.serializers, logger.tracebackMessages
     if len(msgs) != len(sers):
         raise Violation("length_mismatch", "len(messages)=%d, len(serializers)=%d" % (len(msgs), len(sers)))
@@ -198,7 +243,7 @@ def run_memory(rc, cfg, actors_ops):
     for n, c in present.items():
         if c > 1:
             raise Violation("duplicated", "message nid=%s recorded %d times" % (n, c))
-    writes = [h for h in hist if h["op"].startswith("write")]
+    writes = [h for h in hist if h["op"].startswith("write") and h.get("logger") != "b"]
     for h in writes:
         n = h["nid"]
         if last_reset_inv is not None and h["ret"] < min(r["inv"] for r in resets if r["ret"] == last_reset_ret):
@@ -256,6 +301,7 @@ def run_file(rc, cfg, actors_ops):
     rc.sched = s
     rc.clock = seams.begin_run(rc.seed)
     f = SimFile("log", text=cfg["text"])
+    f2 = SimFile("log2", text=not cfg["text"])
     rc.file = f
     offered = []
 
@@ -268,7 +314,7 @@ def run_file(rc, cfg, actors_ops):
         return fn
 
     def main():
-        e.add_destinations(e.FileDestination(file=f))
+        e.add_destinations(e.FileDestination(file=f), e.FileDestination(file=f2))
         acts = [s.spawn("T%d" % i, actor_fn("T%d" % i, ops)) for i, ops in enumerate(actors_ops)]
         for a in acts:
             s.yield_point("join")
@@ -286,25 +332,26 @@ def run_file(rc, cfg, actors_ops):
     for a in s.actors:
         if a.exc is not None:
             raise Violation(("raised", {"op": "log", "exc": type(a.exc).__name__}), "thread raised %r" % (a.exc,))
-    data = f.os_cache + f.user_buf
-    parts = data.split(b"\n")
-    if parts[-1] != b"":
-        raise Violation("torn_line", "file does not end with a newline: %r" % parts[-1][:80])
-    seen = {}
-    for raw in parts[:-1]:
-        try:
-            d = json.loads(raw.decode("utf-8"))
-            n = d["nid"]
-        except Exception:  # noqa
-            raise Violation("torn_line", "a line is not one JSON message: %r" % raw[:120])
-        seen[n] = seen.get(n, 0) + 1
-    for n in offered:
-        if seen.get(n, 0) != 1:
-            raise Violation("lost" if n not in seen else "duplicated",
-                            "message nid=%d appears %d times in the file" % (n, seen.get(n, 0)))
-    for c in f.calls:
-        if c[0] == "write" and (not c[1].endswith(b"\n") or c[1].count(b"\n") != 1):
-            raise Violation("split_write", "a write call did not carry exactly one complete line: %r" % c[1][:80])
+    for ff in (f, f2):
+        data = ff.os_cache + ff.user_buf
+        parts = data.split(b"\n")
+        if parts[-1] != b"":
+            raise Violation("torn_line", "file %s does not end with a newline: %r" % (ff.name, parts[-1][:80]))
+        seen = {}
+        for raw in parts[:-1]:
+            try:
+                d = json.loads(raw.decode("utf-8"))
+                n = d["nid"]
+            except Exception:  # noqa
+                raise Violation("torn_line", "a line of %s is not one JSON message: %r" % (ff.name, raw[:120]))
+            seen[n] = seen.get(n, 0) + 1
+        for n in offered:
+            if seen.get(n, 0) != 1:
+                raise Violation("lost" if n not in seen else "duplicated",
+                                "message nid=%d appears %d times in file %s" % (n, seen.get(n, 0), ff.name))
+        for c in ff.calls:
+            if c[0] == "write" and (not c[1].endswith(b"\n") or c[1].count(b"\n") != 1):
+                raise Violation("split_write", "a write call did not carry exactly one complete line: %r" % c[1][:80])
     return {"ops": len(offered)}
 
 
